@@ -53,6 +53,9 @@ func Quiet() {
 // Run executes f inside a bubble whose clock was advanced to Start. A panic that escapes the bubble
 // (including synctest's own deadlock report) is returned as an error.
 func Run(t *testing.T, f func(t *testing.T)) (err error) {
+	if t == nil {
+		t = defaultT
+	}
 	defer func() {
 		if p := recover(); p != nil {
 			err = fmt.Errorf("bubble panic: %v", p)
@@ -64,6 +67,11 @@ func Run(t *testing.T, f func(t *testing.T)) (err error) {
 	})
 	return nil
 }
+
+var defaultT *testing.T
+
+// SetT sets the *testing.T used by Run(nil, ...).
+func SetT(t *testing.T) { defaultT = t }
 
 // Wait is synctest.Wait.
 func Wait() { synctest.Wait() }
